@@ -223,6 +223,7 @@ PROPS = {
         assumptions=COMMON_ASSUME + ["an acknowledgement line written to the pipe before the kill is read by the parent after the child's death", "the OS keeps written pages of a killed process (no power loss)"],
         tests=[
             dict(name="TestKillReopen", quick=150, thorough=3000, shards_thorough=16, shrinktime="30s"),
+            dict(name="TestKillConcurrent", quick=80, thorough=2000, shards_thorough=16, shrinktime="20s"),
             dict(name="TestAckedInProcess", quick=400, thorough=8000, shards_thorough=8),
         ],
     ),
